@@ -125,6 +125,15 @@ var keywords = map[string]bool{"bool": true, "byte": true, "i8": true, "i16": tr
 
 var baseTypes = []string{"bool", "byte", "i8", "i16", "i32", "i64", "double", "string", "binary"}
 
+func isBase(s string) bool {
+	for _, b := range baseTypes {
+		if b == s {
+			return true
+		}
+	}
+	return false
+}
+
 type docGen struct {
 	r *vl.Rng
 	// risky: spellings on which the unchanged tree is suspected to violate the property (DESIGN §7)
@@ -153,6 +162,12 @@ func (g *docGen) ident() string {
 			s = kw + s
 		}
 		if keywords[s] {
+			continue
+		}
+		// `i8.x`, `string.T`, `void.y`: the keyword rules end in `!LetterOrDigit`, and `.` is not a LetterOrDigit, so in type
+		// position the PEG commits to the base type and the rest is no identifier: such a name is not in the PEG's language
+		// (observation in docs/C03.md); only the wild stream keeps it
+		if i := strings.IndexByte(s, '.'); i > 0 && !g.wild && (s[:i] == "void" || isBase(s[:i])) {
 			continue
 		}
 		if (strings.HasPrefix(s, "required") || strings.HasPrefix(s, "optional")) && !g.risky && !g.wild {
